@@ -5,7 +5,7 @@
   (`Mhd.Model.Framing`, `Chunked`, `FramingConn`) mirrors `parse_connection_headers`,
   `process_request_body`, `transmit_error_response_len`, `MHD_queue_response`,
   `keepalive_possible`, `connection_reset` and the receive side of
-  `MHD_connection_handle_idle` of connection.c *with the fixes F2, F3, F9, F14 applied*.
+  `MHD_connection_handle_idle` of connection.c *with the fixes F2, F3, F9, F16 applied*.
 
   Domain restriction (explicit): request heads are split by the strict splitter
   `parseHead`; it is the real parser only on canonical heads (`CanonicalHead`, decidable).
